@@ -123,7 +123,7 @@ pub fn child_main(file: &Path) -> ! {
             Op::Flush => sess.flush(),
             Op::Advance(ms) => hh.advance(*ms * MS),
             Op::FailWrite(_) => {} // not generated for this property (faults come from its own enumeration)
-            Op::MoveAwayAndReopen | Op::Reopen | Op::ResetSame => {}
+            Op::MoveAwayAndReopen | Op::MoveAwayRecreateAndReopen | Op::Reopen | Op::ResetSame => {}
         }
     }
     sess.shutdown();
